@@ -103,7 +103,8 @@ fn check_pattern_exhaustiveness_stmt(statics: &mut StaticsContext, stmt: &Stmt) 
             check_pattern_exhaustiveness_expr(statics, lhs);
             check_pattern_exhaustiveness_expr(statics, expr);
         }
-        StmtKind::Let(_, _, expr) => {
+        StmtKind::Let(_, (pat, _), expr) => {
+            binding_pat_exhaustive_check(statics, pat);
             check_pattern_exhaustiveness_expr(statics, expr);
         }
         StmtKind::Expr(expr) => {
@@ -121,7 +122,8 @@ fn check_pattern_exhaustiveness_stmt(statics: &mut StaticsContext, stmt: &Stmt) 
                 check_pattern_exhaustiveness_stmt(statics, statement);
             }
         }
-        StmtKind::ForLoop(_, iterable, statements) => {
+        StmtKind::ForLoop(pat, iterable, statements) => {
+            binding_pat_exhaustive_check(statics, pat);
             check_pattern_exhaustiveness_expr(statics, iterable);
             for statement in statements {
                 check_pattern_exhaustiveness_stmt(statics, statement);
@@ -223,10 +225,15 @@ struct Matrix {
 
 impl Matrix {
     fn new(statics: &StaticsContext, scrutinee_ty: Type, arms: &[Rc<MatchArm>]) -> Self {
+        let pats: Vec<_> = arms.iter().map(|arm| arm.pat.clone()).collect();
+        Self::from_pats(statics, scrutinee_ty, &pats)
+    }
+
+    fn from_pats(statics: &StaticsContext, scrutinee_ty: Type, pats: &[Rc<Pat>]) -> Self {
         let types = vec![scrutinee_ty];
         let mut rows = Vec::new();
-        for (dummy, arm) in arms.iter().enumerate() {
-            let pats = vec![DeconstructedPat::from_ast_pat(statics, &arm.pat)];
+        for (dummy, pat) in pats.iter().enumerate() {
+            let pats = vec![DeconstructedPat::from_ast_pat(statics, pat)];
             rows.push(MatrixRow {
                 pats,
                 parent_row: dummy,
@@ -1051,6 +1058,23 @@ fn match_expr_exhaustive_check(
             node,
             redundant_arms,
         })
+    }
+}
+
+// The pattern of a `let`, `var` or `for` is not tested when it binds, so it has to match every
+// value of its type. It is checked like a match expression with one arm.
+fn binding_pat_exhaustive_check(statics: &mut StaticsContext, pat: &Rc<Pat>) {
+    let Some(ty) = statics.solution_of_node(pat.node()) else {
+        return;
+    };
+    let mut matrix = Matrix::from_pats(statics, ty, std::slice::from_ref(pat));
+    let witness_matrix = compute_exhaustiveness_and_usefulness(statics, &mut matrix);
+    let missing = witness_matrix.first_column();
+    if !missing.is_empty() {
+        statics.errors.push(Error::NonexhaustiveMatch {
+            node: pat.node(),
+            missing,
+        });
     }
 }
 
